@@ -230,8 +230,9 @@ func (m *Machine) contractCall(c *Config, call ssa.CallInstruction, callee *ssa.
 	for _, a := range fc.Assigns {
 		m.havocLoc(c, env, a)
 	}
-	if !fc.HasAssigns {
-		// no frame given: everything reachable is assumed modified
+	if !fc.HasAssigns && fc.Trusted != "" {
+		// a trusted contract without a frame: everything reachable is assumed modified (a verified contract
+		// without an assigns clause assigns nothing, and its body is checked against that)
 		for name, v := range st.ghost {
 			if ghostImmutable[name] {
 				continue
@@ -486,7 +487,9 @@ func (m *Machine) builtin(c *Config, call ssa.CallInstruction, name string, args
 		m.bindCallResult(c, call, []Value{Sym("iface.nil", SIface)})
 		return c, nil
 	case "delete":
-		m.unsup("delete builtin")
+		m.mapDelete(c, call.Common().Args[0], call.Common().Args[1])
+		m.bindCallResult(c, call, nil)
+		return c, nil
 	}
 	m.unsup("builtin %s", name)
 	return nil, nil
